@@ -1868,3 +1868,76 @@ Proof.
   - congruence.
 Qed.
 Print Assumptions unfreeze_exact.
+
+(* never to anyone else: an account that owns no matured entry is not touched by the refund loop *)
+Corollary refund_only_to_owner s s' ups a :
+  end_block s = (s', Ok ups) →
+  (∀ k st, frozen (base_of s) !! k = Some st → s_refund st ≤ b_height (bctx s) → s_from st ≠ a) →
+  acct_of (work s') a = fee_credited s a.
+Proof.
+  intros E Hno. destruct (unfreeze_exact _ _ _ E) as (_ & _ & HA & _). rewrite HA.
+  replace (refunds_to (b_height (bctx s)) a (sorted_items (frozen (base_of s)))) with (@nil Z); [reflexivity|].
+  symmetry. unfold refunds_to.
+  assert (Hall : Forall (λ kp : hash * stake, matured (b_height (bctx s)) kp && (s_from kp.2 =? a)%N = false)
+                   (sorted_items (frozen (base_of s)))).
+  { apply Forall_forall. intros [k st] Hin. apply elem_of_sorted_items in Hin. simpl.
+    destruct (matured _ _) eqn:Em; [|reflexivity]. simpl.
+    apply N.eqb_neq. eapply Hno; [exact Hin|]. unfold matured in Em; simpl in Em; lia. }
+  clear HA. induction Hall as [|kp l Hkp _ IH]; simpl; [reflexivity|]. rewrite Hkp. exact IH.
+Qed.
+
+(* in full: the balance grows by the sum of power x 10^18 over the owner's matured entries *)
+Corollary refund_balance s s' ups a :
+  end_block s = (s', Ok ups) → 0 ≤ a_bal (fee_credited s a) < two256 →
+  bal_of (work s') a = (a_bal (fee_credited s a) + refund_total (base_of s) (b_height (bctx s)) a) mod two256.
+Proof.
+  intros E Hr. destruct (unfreeze_exact _ _ _ E) as (_ & _ & HA & _). unfold bal_of. rewrite HA.
+  rewrite foldl_credit_bal by assumption. unfold refund_total.
+  rewrite (refunds_to_perm _ _ (sorted_items (frozen (base_of s))) (map_to_list (frozen (base_of s)))); [reflexivity|].
+  unfold sorted_items. apply merge_sort_Permutation.
+Qed.
+
+Lemma fee_credited_other s a : b_proposer (bctx s) ≠ Some a → fee_credited s a = acct_of (work s) a.
+Proof.
+  unfold fee_credited. destruct (b_proposer (bctx s)) as [pa|]; [|reflexivity].
+  destruct (decide (pa = a)) as [->|]; [intros H; destruct H; reflexivity | reflexivity].
+Qed.
+
+Lemma power_to_amount_exact p : 0 ≤ p < two63 → power_to_amount p = p * amountPerPower.
+Proof.
+  Local Transparent two63 two64 two256.
+  unfold power_to_amount, mul256, wrap256, two63, two64, two256, amountPerPower. intros Hp.
+  rewrite (Z.mod_small p) by lia. apply Z.mod_small. lia.
+  Local Opaque two63 two64 two256.
+Qed.
+
+(* exactly once: after the Commit that follows, the refunded keys are gone from the committed
+   unbonding ledger, which is what the next EndBlock iterates *)
+Corollary refunded_entry_gone s s' ups k st :
+  end_block s = (s', Ok ups) → frozen (base_of s) !! k = Some st → s_refund st ≤ b_height (bctx s) →
+  frozen (base_of (commit s')) !! k = None.
+Proof.
+  intros E Hst Hle. destruct (unfreeze_exact _ _ _ E) as (H1 & _).
+  unfold base_of, commit. simpl. rewrite last_snoc. simpl. eapply H1; eassumption.
+Qed.
+Print Assumptions refunded_entry_gone.
+
+(* ================================================================== 11. examples: the hypotheses are satisfiable *)
+Definition ex_genesis : genesis :=
+  {| gen_params := ex_params; gen_holders := [(1%N, 1000); (3%N, 5000000000000001000)]; gen_validators := [(1%N, 10)] |}.
+Definition ex_stake (from to : addr) (amt nonce : Z) (txh : hash) : tx := {|
+  t_type := TRX_STAKING; t_from := from; t_to := to; t_from_ok := true; t_to_ok := true;
+  t_amount := amt; t_price := 1; t_gas := 10; t_nonce := nonce; t_payload := PNone; t_hash := txh;
+  t_sigok := true; t_evm := None |}.
+Definition ex_unstake2 (from to : addr) (h : hash) (nonce : Z) (txh : hash) : tx := {|
+  t_type := TRX_UNSTAKING; t_from := from; t_to := to; t_from_ok := true; t_to_ok := true;
+  t_amount := 0; t_price := 1; t_gas := 10; t_nonce := nonce; t_payload := PUnstake h true; t_hash := txh;
+  t_sigok := true; t_evm := None |}.
+(* block 1: account 3 delegates power 2 to validator 1; block 2: it releases that stake *)
+Definition ex_b1 : list sop := [SBegin (ex_header 1); SDeliver (ex_stake 3%N 1%N 2000000000000000000 0 201%N); SEnd; SCommit].
+Definition ex_tx_un : tx := ex_unstake2 3%N 1%N 201%N 1 202%N.
+Definition ex_b2 : list sop := [SBegin (ex_header 2); SDeliver ex_tx_un; SEnd; SCommit].
+Definition ex_b3 : list sop := [SBegin (ex_header 3); SEnd; SCommit].
+Definition ex_delegation : stake :=
+  {| s_from := 3%N; s_to := 1%N; s_hash := 201%N; s_start := 2; s_refund := 0; s_power := 2 |}.
+
